@@ -79,6 +79,8 @@ func (s *SimSink) errValue(i int) error {
 		return io.ErrUnexpectedEOF
 	case "temporary":
 		return &TemporaryErr{ID: 1000 + i}
+	case "shortwrite":
+		return io.ErrShortWrite // the value a stacked adapter fails with when ITS sink took part of a packet
 	}
 	return &InjectedErr{ID: 1000 + i}
 }
